@@ -562,6 +562,7 @@ func buildSeeded() core.BuildFunc {
 		r.P.OnOpen = s.onOpen
 		r.P.OnFrame = func(c *refhsms.Conn, f refhsms.RxFrame) { s.onPeerFrame(c, f) }
 		w.AddMonitor(s.poll)
+		w.AddMonitor(s.reconnectsNeverAhead)
 		r.Open(hsms.OpenBackground)
 		if !sc.Active {
 			s.peerDialLoop()
@@ -759,6 +760,34 @@ func (s *seeded) onPeerFrame(c *refhsms.Conn, f refhsms.RxFrame) {
 	s.onFrame(c, f, s.sendTo)
 }
 
+// wantReconnects: successful re-dials so far, per the dial log (the success that completes the very
+// first, cold connect is not a reconnect).
+func (s *seeded) wantReconnects() (want uint64, okRedials int, firstOK bool) {
+	for i, a := range s.attempts {
+		if i > 0 && a.ok {
+			okRedials++
+		}
+	}
+	firstOK = len(s.attempts) > 0 && s.attempts[0].ok
+	want = uint64(okRedials)
+	if !firstOK && okRedials > 0 {
+		want--
+	}
+
+	return want, okRedials, firstOK
+}
+
+// reconnectsNeverAhead is evaluated at every driver step: the counter moves only WITH a successful
+// re-dial, so it is never ahead of the dial log (a loop that is still failing has counted nothing).
+func (s *seeded) reconnectsNeverAhead() {
+	if !s.sc.Active || s.w.Stopped() {
+		return
+	}
+	if want, _, _ := s.wantReconnects(); s.r.C.Metrics().Reconnects() > want {
+		s.w.Fail("RECONNECTS", "Reconnects() = %d while the dial log shows only %d successful re-dials so far (%d attempts): the counter moved without a successful re-dial", s.r.C.Metrics().Reconnects(), want, len(s.attempts))
+	}
+}
+
 // refBackoff is the reference backoff sequence: the k-th wait of a reconnect loop.
 func refBackoff(init time.Duration, mult float64, t5 time.Duration, k int) time.Duration {
 	d := float64(init)
@@ -844,17 +873,7 @@ func (s *seeded) final(reason string) {
 		}
 	}
 	if sc.Active {
-		okRedials := 0
-		for i, a := range s.attempts {
-			if i > 0 && a.ok {
-				okRedials++
-			}
-		}
-		firstOK := len(s.attempts) > 0 && s.attempts[0].ok
-		want := uint64(okRedials)
-		if !firstOK && okRedials > 0 {
-			want-- // the success that completes the very first (cold) connect is not a reconnect
-		}
+		want, _, firstOK := s.wantReconnects()
 		if got := r.C.Metrics().Reconnects(); got != want {
 			w.Fail("RECONNECTS", "Reconnects() = %d; the dial log shows %d successful re-dials after an established link was lost (first connect ok=%v)", got, want, firstOK)
 
